@@ -31,11 +31,13 @@ def setup(mode):
 
 def _inlet(E, j, pk, kinds, pkgs):
     kind = E.pick(kinds, f'in{j}-kind')
-    th = pk[E.pick(pkgs, f'in{j}-pkg')]
+    pname = E.pick(pkgs, f'in{j}-pkg')
+    th = pk[pname]
+    other = pname != pkgs[0]      # inlets of another package: also vary the dict insertion order
     if kind.startswith('ms:'):
-        s, fl = S.mk_multistream(E, f'i{j}', th, phases=kind[3:])
+        s, fl = S.mk_multistream(E, f'i{j}', th, phases=kind[3:], vary_order=other)
     else:
-        s, fl = S.mk_stream(E, f'i{j}', th, phase=kind)
+        s, fl = S.mk_stream(E, f'i{j}', th, phase=kind, vary_order=other)
     return s
 
 
